@@ -636,7 +636,7 @@ func (e *E1) alwaysFails(h *ssa.Function, depth int) bool {
 			continue
 		}
 		n++
-		if sub.classify(r.Results[idx], b, map[ssa.Value]bool{}) != retFail {
+		if sub.classify(RetVal(r, idx), b, map[ssa.Value]bool{}) != retFail {
 			return false
 		}
 	}
@@ -702,10 +702,12 @@ func (e *E1) SuccessReturns() []ssa.Instruction {
 	idx := statusResult(sig)
 	for _, b := range e.Fn.Blocks {
 		r, ok := b.Instrs[len(b.Instrs)-1].(*ssa.Return)
-		if !ok {
+		if !ok || b == e.Fn.Recover {
+			// the recover block's return only reloads the result variables after a
+			// recovered panic; it is not a return statement of the source
 			continue
 		}
-		if e.classify(r.Results[idx], b, map[ssa.Value]bool{}) != retFail {
+		if e.classify(RetVal(r, idx), b, map[ssa.Value]bool{}) != retFail {
 			out = append(out, r)
 		}
 	}
@@ -792,7 +794,7 @@ func (e *E1) Unguarded(start ssa.Instruction, sinks []ssa.Instruction, guards []
 			}
 			if ret, ok := s.(*ssa.Return); ok && len(ret.Results) > 0 {
 				del := false
-				rv := ret.Results[len(ret.Results)-1]
+				rv := RetVal(ret, len(ret.Results)-1)
 				for _, g := range guards {
 					if g.Delegates != nil && g.Delegates(rv) {
 						del = true
@@ -982,7 +984,7 @@ func (e *E1) unguardedFromBlock(blk *ssa.BasicBlock, sinks []ssa.Instruction, gu
 		for _, s := range sinkIn[st.blk] {
 			del := false
 			if ret, ok := s.(*ssa.Return); ok && len(ret.Results) > 0 {
-				rv := ret.Results[len(ret.Results)-1]
+				rv := RetVal(ret, len(ret.Results)-1)
 				for _, g := range guards {
 					if g.Delegates != nil && g.Delegates(rv) {
 						del = true
